@@ -75,10 +75,18 @@ func TestConcurrentReadersRapid(t *testing.T) {
 			nextTok += uint32(rapid.IntRange(1, 1<<24).Draw(rt, "tokStep"))
 			return nextTok
 		}
+		// some writers (older lifecyclers) leave the Id field of their entries empty: clients fill it in from the key
+		legacyWriters := rapid.IntRange(0, 2).Draw(rt, "legacyWriters") == 0
+		idField := func(i int, id string) string {
+			if legacyWriters && i%2 == 1 {
+				return ""
+			}
+			return id
+		}
 		addInst := func(i int) {
 			id := fmt.Sprintf("i%d", i)
 			toks := []uint32{freshTok(), freshTok(), freshTok()}
-			cur[id] = ring.InstanceDesc{Id: id, Addr: id + ":1", Zone: zones[i%len(zones)], Tokens: toks, State: ring.ACTIVE, Timestamp: base.Unix(), RegisteredTimestamp: base.Unix() - int64(rapid.IntRange(0, 100).Draw(rt, "regAge"))}
+			cur[id] = ring.InstanceDesc{Id: idField(i, id), Addr: id + ":1", Zone: zones[i%len(zones)], Tokens: toks, State: ring.ACTIVE, Timestamp: base.Unix(), RegisteredTimestamp: base.Unix() - int64(rapid.IntRange(0, 100).Draw(rt, "regAge"))}
 		}
 		n0 := rapid.IntRange(2, 6).Draw(rt, "n0")
 		for i := 0; i < n0; i++ {
